@@ -110,8 +110,8 @@
             function cannot be called from another translated function;
           - a slice whose element type is outside the subset (e.g. [[]*ValueDescription]) is kept
             as its LENGTH only ([go_len], a non-negative integer; the only operation is [len]);
-          - a [string] is the [list Z] of its bytes (only constants, locals and results; no
-            operations);
+          - a [string] is the [list Z] of its bytes (constants, locals, parameters and results);
+            [==], [!=] and [switch] on strings compare the byte sequences ([go_string_eqb]);
           - [go/types.Typ[k]] (the table of predeclared basic types indexed by [types.BasicKind]) is
             represented by the kind [k] itself ([go_types_Typ]); named constants of a defined type
             such as [types.Float32] are printed as their value with the name as a comment.
@@ -245,5 +245,12 @@ Definition binary_le_PutUint64 (b : go_bytes) (lo v : Z) : go_bytes := bytes_spl
 (** * Slices kept as their length; strings; go/types.Typ *)
 Definition go_len := Z.
 Definition go_string := list Z.
+(** [s == t] on strings: same length and the same bytes *)
+Fixpoint go_string_eqb (a b : go_string) : bool :=
+  match a, b with
+  | [], [] => true
+  | x :: a', y :: b' => (x =? y) && go_string_eqb a' b'
+  | _, _ => false
+  end.
 Definition go_basic_type := Z.
 Definition go_types_Typ (kind : Z) : go_basic_type := kind.
